@@ -1470,6 +1470,10 @@ func (c *Client) sendSingleMsg(client *smtp.Client, message *Msg) error {
 	}
 	_, err = message.WriteTo(writer)
 	if err != nil {
+		// The content is incomplete. Any further command would implicitly terminate the DATA
+		// section and make the server accept the fragment; the only way to abort is to drop
+		// the connection without sending the end-of-data sequence
+		_ = client.Close()
 		return &SendError{
 			Reason: ErrWriteContent, errlist: []error{err}, isTemp: isTempError(err),
 			affectedMsg: message, errcode: errorCode(err),
